@@ -8,15 +8,15 @@
      virtualNode: <handle c>.virtNode => SELF
      virtualNode: <handle q>.simNode => (SIM q)
      virtualNode: <handle q>.simQubit => (Q q) at (SIM q)
-     virtualNode: locked_node => CUR
+     virtualNode: locked_node (assigned from _lock_simulating_node(…)) => CUR
      virtualNode: nb => PEER
      virtualNode: newQubit => NEW
-     virtualNode: oldSimNode => OLD
+     virtualNode: oldSimNode (assigned from get_connection(oldSimNodeName)) => OLD
      virtualNode: q in self.simQubits if q.register == … => REGARG
      virtualNode: q in self.simQubits if q.register == … => REGDEL
-     virtualNode: remoteNode => RECV
+     virtualNode: remoteNode (assigned from get_connection(targetName)) => RECV
      virtualNode: self.myID => SELF
-     virtualNode: simNode => OLD
+     virtualNode: simNode (assigned from get_connection(simNodeName)) => OLD
      virtualQubit: <handle c>.simNode => (SIM c)
      virtualQubit: <handle c>.simQubit => (Q c) at (SIM c)
      virtualQubit: <handle c>.virtNode => SELF
@@ -24,25 +24,15 @@
      virtualQubit: <handle t>.simQubit => (Q t) at (SIM t)
      virtualQubit: <handle t>.virtNode => SELF
      virtualQubit: curr_sim_node => CUR
-     virtualQubit: locked_node => CUR
+     virtualQubit: locked_node (assigned from _lock_simulating_node(…)) => CUR
      virtualQubit: node => ALL
    flags (method: local variable whose None-ness is tracked => flag number):
      virtualNode.remote_netqasm_send_epr_half: locked_node => 0
      virtualNode.remote_netqasm_send_qubit: locked_node => 0
      virtualNode.remote_send_qubit: locked_node => 0
    notes:
-     virtualNode._release_global_lock: `if self._lock.locked:` guarding a release is kept as an unconditional release (DeferredLock has no owner: it frees the lock whoever holds it)
-     virtualNode.remote_add_qubit: `if self._lock.locked:` guarding a release is kept as an unconditional release (DeferredLock has no owner: it frees the lock whoever holds it)
-     virtualNode.remote_netqasm_send_epr_half: `if self._lock.locked:` guarding a release is kept as an unconditional release (DeferredLock has no owner: it frees the lock whoever holds it)
-     virtualNode.remote_netqasm_send_qubit: `if self._lock.locked:` guarding a release is kept as an unconditional release (DeferredLock has no owner: it frees the lock whoever holds it)
-     virtualNode.remote_new_qubit: `if self._lock.locked:` guarding a release is kept as an unconditional release (DeferredLock has no owner: it frees the lock whoever holds it)
-     virtualNode.remote_new_qubit_inreg: `if self._lock.locked:` guarding a release is kept as an unconditional release (DeferredLock has no owner: it frees the lock whoever holds it)
-     virtualNode.remote_release_global_lock: `if self._lock.locked:` guarding a release is kept as an unconditional release (DeferredLock has no owner: it frees the lock whoever holds it)
-     virtualNode.remote_send_qubit: `if self._lock.locked:` guarding a release is kept as an unconditional release (DeferredLock has no owner: it frees the lock whoever holds it)
-     virtualQubit._lock_nodes: `d.called` after `cancel()` is always true (a cancelled Deferred counts as called): only the then-branch is kept
-     virtualQubit._two_qubit_gate: `d.called` after `cancel()` is always true (a cancelled Deferred counts as called): only the then-branch is kept
-     virtualQubit.remote_cnot_onto: `d.called` after `cancel()` is always true (a cancelled Deferred counts as called): only the then-branch is kept
-     virtualQubit.remote_cphase_onto: `d.called` after `cancel()` is always true (a cancelled Deferred counts as called): only the then-branch is kept
+     `d.called` after `cancel()` is always true (a cancelled Deferred counts as called): only the then-branch is kept   [in: virtualQubit._lock_nodes, virtualQubit._two_qubit_gate, virtualQubit.remote_cnot_onto, virtualQubit.remote_cphase_onto]
+     `if self._lock.locked:` guarding a release is kept as an unconditional release (DeferredLock has no owner: it frees the lock whoever holds it)   [in: virtualNode._release_global_lock, virtualNode.remote_add_qubit, virtualNode.remote_netqasm_send_epr_half, virtualNode.remote_netqasm_send_qubit, virtualNode.remote_new_qubit, virtualNode.remote_new_qubit_inreg, virtualNode.remote_release_global_lock, virtualNode.remote_send_qubit]
 -/
 import SqVerif.Skel
 namespace SqVerif.Gen
@@ -320,7 +310,7 @@ def remote_netqasm_send_qubit : Stmt :=
                         ]),
                       setFlag 0 false
                     ])),
-                tryFinally
+                tryExcept
                   (block [
                     tryExcept
                       (call (SIM c) "get_sim_number" true)
@@ -329,9 +319,10 @@ def remote_netqasm_send_qubit : Stmt :=
                       (call (SIM c) "transfer_qubit" false)
                       (raise .remote)
                   ])
-                  (Stmt.ite (.isSet 0)
-                    (release CUR)
-                    (skip))
+                  (skip),
+                Stmt.ite (.isSet 0)
+                  (release CUR)
+                  (skip)
               ]),
             mutate SELF "qubit.active",
             mutate SELF "self.virtQubits"
@@ -401,7 +392,7 @@ def remote_netqasm_send_epr_half : Stmt :=
                           ]),
                         setFlag 0 false
                       ])),
-                  tryFinally
+                  tryExcept
                     (block [
                       tryExcept
                         (call (SIM c) "get_sim_number" true)
@@ -410,9 +401,10 @@ def remote_netqasm_send_epr_half : Stmt :=
                         (call (SIM c) "transfer_qubit" false)
                         (raise .remote)
                     ])
-                    (Stmt.ite (.isSet 0)
-                      (release CUR)
-                      (skip))
+                    (skip),
+                  Stmt.ite (.isSet 0)
+                    (release CUR)
+                    (skip)
                 ]),
               mutate SELF "qubit.active",
               mutate SELF "self.virtQubits"
@@ -477,7 +469,7 @@ def remote_send_qubit : Stmt :=
                     ]),
                   setFlag 0 false
                 ])),
-            tryFinally
+            tryExcept
               (block [
                 tryExcept
                   (call (SIM c) "get_sim_number" true)
@@ -486,9 +478,10 @@ def remote_send_qubit : Stmt :=
                   (call (SIM c) "transfer_qubit" false)
                   (raise .remote)
               ])
-              (Stmt.ite (.isSet 0)
-                (release CUR)
-                (skip))
+              (skip),
+            Stmt.ite (.isSet 0)
+              (release CUR)
+              (skip)
           ]),
         mutate SELF "qubit.active",
         mutate SELF "self.virtQubits"
@@ -862,6 +855,7 @@ def _single_gate : Stmt :=
           (skip)
       ])
       (block [
+        qunlock (Q c),
         check .assert,
         alias CUR (SIM c),
         release (SIM c)
@@ -902,6 +896,7 @@ def remote_apply_X : Stmt :=
             (skip)
         ])
         (block [
+          qunlock (Q c),
           check .assert,
           alias CUR (SIM c),
           release (SIM c)
@@ -942,6 +937,7 @@ def remote_apply_Y : Stmt :=
             (skip)
         ])
         (block [
+          qunlock (Q c),
           check .assert,
           alias CUR (SIM c),
           release (SIM c)
@@ -982,6 +978,7 @@ def remote_apply_Z : Stmt :=
             (skip)
         ])
         (block [
+          qunlock (Q c),
           check .assert,
           alias CUR (SIM c),
           release (SIM c)
@@ -1022,6 +1019,7 @@ def remote_apply_H : Stmt :=
             (skip)
         ])
         (block [
+          qunlock (Q c),
           check .assert,
           alias CUR (SIM c),
           release (SIM c)
@@ -1062,6 +1060,7 @@ def remote_apply_K : Stmt :=
             (skip)
         ])
         (block [
+          qunlock (Q c),
           check .assert,
           alias CUR (SIM c),
           release (SIM c)
@@ -1102,6 +1101,7 @@ def remote_apply_T : Stmt :=
             (skip)
         ])
         (block [
+          qunlock (Q c),
           check .assert,
           alias CUR (SIM c),
           release (SIM c)
@@ -1142,6 +1142,7 @@ def remote_apply_rotation : Stmt :=
             (skip)
         ])
         (block [
+          qunlock (Q c),
           check .assert,
           alias CUR (SIM c),
           release (SIM c)
